@@ -16,6 +16,9 @@ def run(chk):
     for fpath, tpath, _ in fonts.shipped():
         parts.append(dict(harness='h_diff', flavour='asan', args=['--part', 'opts', '--font', fpath, '--texts', tpath], cases=120 if quick else 3000, nshards=2 if quick else 8, nsamples=1))
     lst, paths = synthwork.make_fonts('c06', chk.seed, 40 if quick else 600)
+    # cmap-centred fonts (format 12 groups at plane boundaries, U+10000, U+FFFF, glyphIdArray holes): the cached and direct lookup paths
+    lst2, paths2 = synthwork.make_fonts('cmap', chk.seed, 24 if quick else 300)
+    paths = paths + paths2
     for p in paths:
         parts.append(dict(harness='h_diff', flavour='asan', args=['--part', 'opts', '--font', p], cases=20 if quick else 100, nshards=1, nsamples=0))
     chk.run_parts(parts, workers=10)
